@@ -228,6 +228,36 @@ func c01Specs(thorough bool) []mb.Msg {
 			mb.Msg{Enc: menc, Parts: []mb.Part{{Type: "text/plain", Content: bigText, Via: "string"}, {Type: "text/html", Content: bigText, Enc: "b64"}}, Attach: []mb.File{{Name: "big.bin", Content: bigBin}, {Name: "big.txt", Content: bigText, Enc: "8bit"}}, Embeds: []mb.File{{Name: "big.png", Content: bigBin[:70001]}}},
 		)
 	}
+	// file sources: every file API that consumes caller-owned memory at the call (AttachReader / EmbedReader on a
+	// reader over memory the caller recycles afterwards, on one scratch buffer the caller refills per file) and the
+	// lazy read-seeker, × file encoding × 1..2 embeds × 1..2 attachments
+	for _, src := range []string{"reader", "readseeker", "buffer"} {
+		for _, fe := range []string{"", "8bit"} { // (QP for files exists only as a field of hand-made File structs)
+			for ne := 0; ne <= 2; ne++ {
+				for na := 0; na <= 2; na++ {
+					if ne+na == 0 {
+						continue
+					}
+					s := mb.Msg{Parts: []mb.Part{{Type: "text/plain", Content: texts[3]}}}
+					for i := 0; i < ne; i++ {
+						c := bins[(i+ne+na)%len(bins)]
+						if fe == "qp" || fe == "8bit" {
+							c = texts[(i+ne+2*na)%len(texts)]
+						}
+						s.Embeds = append(s.Embeds, mb.File{Name: fmt.Sprintf("e%d.png", i), Content: c, Enc: fe, Source: src})
+					}
+					for i := 0; i < na; i++ {
+						c := bins[(i+2*ne+na+1)%len(bins)]
+						if fe == "qp" || fe == "8bit" {
+							c = texts[(i+ne+na+5)%len(texts)]
+						}
+						s.Attach = append(s.Attach, mb.File{Name: fmt.Sprintf("a%d.bin", i), Content: c, Enc: fe, Source: src})
+					}
+					specs = append(specs, s)
+				}
+			}
+		}
+	}
 	// 7bit (EncodingUSASCII): ASCII content must come out unencoded
 	ascii := [][]byte{[]byte("plain ascii\r\nwith a=b and =3D literal\r\n"), []byte(repeatTo("a long ascii line without any break ", 300) + "\r\n"), []byte(".dot\r\ntrailing blank \r\n"), []byte("x")}
 	for ai, a := range ascii {
@@ -254,7 +284,7 @@ func init() {
 	vf.Register(&vf.Check{
 		ID: "C01", Title: "rendered MIME carries exactly the content the caller supplied",
 		Run: func(r *vf.Run) {
-			r.SetRule("builder programs in canonical order: 0..3 body parts × 0..2 embeds × 0..2 attachments × message encoding {QP, base64, 8bit} × file encoding {default base64, 8bit, QP via File.Enc} × per-part encodings/descriptions/content types/fixed boundary, contents rotated through a 25-entry text alphabet and an 18-entry binary alphabet (wrap points 57/58/75/76/77, dots, '=', boundary-like lines, bare CR/LF, all 256 byte values, 3000-byte binary); plus every single byte value in every encoding; each rendering is re-read by the harness' own MIME reader and compared leaf by leaf; distinct by program")
+			r.SetRule("builder programs in canonical order: 0..3 body parts × 0..2 embeds × 0..2 attachments × message encoding {QP, base64, 8bit} × file encoding {default base64, 8bit, QP via File.Enc} × per-part encodings/descriptions/content types/fixed boundary, contents rotated through a 25-entry text alphabet and an 18-entry binary alphabet (wrap points 57/58/75/76/77, dots, '=', boundary-like lines, bare CR/LF, all 256 byte values, 3000-byte binary); plus every single byte value in every encoding; plus files supplied through AttachReader/EmbedReader (memory recycled by the caller afterwards; one scratch buffer refilled per file) and Attach/EmbedReadSeeker; each rendering is re-read by the harness' own MIME reader and compared leaf by leaf; distinct by program")
 			r.Assume("file media types without WithFileContentType are those of mime.TypeByExtension", "charset of text parts is the default UTF-8", "NUL bytes are not text")
 			specs := c01Specs(r.Thorough)
 			r.Extra("programs", len(specs))
